@@ -9,6 +9,7 @@ import (
 	"time"
 
 	"github.com/casbin/casbin/v2"
+	fileadapter "github.com/casbin/casbin/v2/persist/file-adapter"
 )
 
 // Conditional role managers (role definitions with link-condition parameters, g = _, _, (_, _)) are
@@ -197,5 +198,59 @@ func condCycles(c *Ctx) {
 			tail = tail[:600]
 		}
 		c.Direct("Enforce over a conditional role graph with a cycle hangs or crashes the process", fmt.Sprintf("child exit: %v\n%s", err, tail))
+	}
+}
+
+// condRejectedReload (C11): a model whose role definitions are all conditional; the store is replaced by a text
+// whose j-th grouping line lacks its condition parameters (accepted as a rule, refused when its link is
+// built): LoadPolicy reports the error and rules, links and decisions are what they were.  Implementation only.
+func condRejectedReload(c *Ctx) {
+	good := "p, admin, data1, read\np, root, data2, read\ng, alice, admin, _, _\ng, admin, root, _, _\ng, bob, admin, _, _\n"
+	for j := 1; j <= 3; j++ {
+		lines := []string{"p, admin, data2, read", "g, carol, admin, _, _", "g, dave, root, _, _", "g, erin, admin, _, _"}
+		lines[j] = "g, zed, admin" // the j-th grouping line has no parameters
+		bad := strings.Join(lines, "\n") + "\n"
+		path := scratchFile() + ".cond11"
+		if err := os.WriteFile(path, []byte(good), 0o644); err != nil {
+			panic(err)
+		}
+		e, err := casbin.NewEnforcer(mustModel(condModelText), fileadapter.NewAdapter(path))
+		if err != nil {
+			panic(err)
+		}
+		state := func() string {
+			pp, _ := e.GetPolicy()
+			gp, _ := e.GetGroupingPolicy()
+			var sb strings.Builder
+			fmt.Fprintf(&sb, "p=%v g=%v links=", pp, gp)
+			crm := e.GetModel()["g"]["g"].CondRM
+			for _, u := range []string{"alice", "bob", "carol", "dave", "erin", "zed", "admin"} {
+				for _, r := range []string{"admin", "root"} {
+					ok, _ := crm.HasLink(u, r)
+					if ok {
+						sb.WriteByte('1')
+					} else {
+						sb.WriteByte('0')
+					}
+				}
+			}
+			return sb.String() + " dec=" + condDecisions(e)
+		}
+		before := state()
+		if err := os.WriteFile(path, []byte(bad), 0o644); err != nil {
+			panic(err)
+		}
+		err = e.LoadPolicy()
+		after := state()
+		c.Evals++
+		c.Count("conditional_rejected_reloads", 1)
+		if err == nil {
+			c.Direct("a grouping line without its condition parameters was loaded without an error", fmt.Sprintf("text=%q", bad))
+			continue
+		}
+		c.Nontrivial(fmt.Sprintf("cond-rejected-reload|%d", j))
+		if before != after {
+			c.Direct("a rejected load changed the in-memory state (conditional role definition)", fmt.Sprintf("grouping line #%d of the new text lacks its parameters\nbefore: %s\nafter:  %s", j, before, after))
+		}
 	}
 }
